@@ -12,6 +12,7 @@ import (
 	"os"
 	"sort"
 	"sync"
+	"sync/atomic"
 
 	"0chain.net/chaincore/block"
 	"0chain.net/chaincore/chain"
@@ -35,6 +36,9 @@ import (
 var (
 	once  sync.Once
 	Chain *chain.Chain
+	// worldSeq makes every block hash of every World unique within the process: the chain's state cache is
+	// global and keyed by block hash, so a reused hash would leak cached values from one case into another.
+	worldSeq uint64
 )
 
 // RepoRoot is /repo unless VERIF_REPO is set (scratch worktrees for mutation trials).
@@ -90,6 +94,7 @@ type World struct {
 	Round  int64
 	Now    common.Timestamp
 	txnSeq int
+	id     uint64
 }
 
 // NewWorld builds a genesis state with the given balances (and runs init on it, e.g. contract InitConfig).
@@ -98,7 +103,8 @@ func NewWorld(balances map[string]currency.Coin, init func(sctx *cstate.StateCon
 	ndb := util.NewMemoryNodeDB()
 	mpt := util.NewMerklePatriciaTrie(ndb, 0, nil, statecache.NewEmpty())
 	gb := block.NewBlock("", 0)
-	gb.Hash = encryption.Hash("verif-genesis")
+	wid := atomic.AddUint64(&worldSeq, 1)
+	gb.Hash = encryption.Hash(fmt.Sprintf("verif-genesis-%d", wid))
 	gtxn := &transaction.Transaction{}
 	gtxn.Hash = encryption.Hash("verif-genesis-txn")
 	sctx := cstate.NewStateContext(gb, mpt, gtxn, nil, nil, nil, nil, nil, nil)
@@ -124,7 +130,7 @@ func NewWorld(balances map[string]currency.Coin, init func(sctx *cstate.StateCon
 	gb.ClientState = mpt
 	gb.ClientStateHash = mpt.GetRoot()
 	gb.SetStateStatus(block.StateSuccessful)
-	w := &World{C: c, NDB: ndb, Prev: gb, Round: 0, Now: 1700000000}
+	w := &World{C: c, NDB: ndb, Prev: gb, Round: 0, Now: 1700000000, id: wid}
 	w.NextBlock()
 	return w, nil
 }
@@ -139,7 +145,7 @@ func (w *World) NextBlock() {
 	}
 	w.Round++
 	b := block.NewBlock("", w.Round)
-	b.Hash = encryption.Hash(fmt.Sprintf("verif-block-%d-%p", w.Round, w))
+	b.Hash = encryption.Hash(fmt.Sprintf("verif-block-%d-world-%d", w.Round, w.id))
 	b.PrevHash = w.Prev.Hash
 	b.PrevBlock = w.Prev
 	b.CreationDate = w.Now
